@@ -13,6 +13,8 @@ pub mod mlpg_adjust;
 pub mod model;
 pub mod speech;
 pub mod vocoder;
+#[cfg(jbonsai_verif)]
+pub mod verif;
 
 pub use engine::*;
 
